@@ -41,8 +41,21 @@ def base_instances():
     }
 
 
+def type_classes(t):
+    """the values of a type that a skip rule or a load default could single out, whatever rule the field declares"""
+    if t.startswith("Option<"):
+        return ["none"] + type_classes(t[len("Option<"):-1])
+    if t == "String" or t.startswith("Vec<") or t.startswith("BTreeMap<"):
+        return ["empty", "other"]
+    if t == "f32":
+        return ["zero", "one", "other"]
+    if t == "bool":
+        return ["zero", "true"]
+    return ["other"]
+
+
 CLASS_VALUE = {
-    ("f32", "zero"): 0.0, ("f32", "one"): 1.0, ("bool", "true"): True, ("String", "empty"): "", ("SpaceType", "zero"): "CONDITIONED",
+    ("bool", "zero"): False, ("f32", "zero"): 0.0, ("f32", "one"): 1.0, ("bool", "true"): True, ("String", "empty"): "", ("SpaceType", "zero"): "CONDITIONED",
     ("ThermalBridgeKind", "zero"): "GENERIC",
 }
 
@@ -105,11 +118,23 @@ def run_c04(tier, replay=None):
             vary = [r for r in fields if r["skip"] != "never" or r["load"] == "none"]
             choices = []
             for r in vary:
-                cl = ["other"] + sorted({c for c in (r["skip"], r["load"]) if c not in ("never", "error")})
+                cl = ["other"] + sorted(({c for c in (r["skip"], r["load"]) if c not in ("never", "error") and not c.startswith(("unknown:", "fn:"))}
+                                         | set(type_classes(r["type"]))) - {"other"})
                 choices.append([(r, c) for c in cl])
-            vectors = list(itertools.product(*choices)) if choices else [()]
-            if quick and len(vectors) > 40:
-                vectors = rng.sample(vectors, 40)
+            nvec = 1
+            for c in choices:
+                nvec *= len(c)
+            cap = 40 if quick else 3000
+            if nvec > cap:
+                # every class of every field at least once, the rest drawn at random
+                vectors = [tuple(rng.choice(c) for c in choices) for _ in range(cap)]
+                for k, c in enumerate(choices):
+                    for j, pick in enumerate(c):
+                        v = list(vectors[(k * 7 + j) % cap])
+                        v[k] = pick
+                        vectors[(k * 7 + j) % cap] = tuple(v)
+            else:
+                vectors = list(itertools.product(*choices)) if choices else [()]
             instances, desc = [], []
             for n, vec in enumerate(vectors):
                 inst = copy.deepcopy(base[struct])
@@ -135,7 +160,8 @@ def run_c04(tier, replay=None):
             model = {"meta": copy.deepcopy(base["Meta"])}
             d = []
             for r in [x for x in rows if x["struct"] == "Meta" and (x["skip"] != "never" or x["load"] == "none")]:
-                cls = rng.choice(["other"] + sorted({c for c in (r["skip"], r["load"]) if c not in ("never", "error")}))
+                cls = rng.choice(["other"] + sorted(({c for c in (r["skip"], r["load"]) if c not in ("never", "error") and not c.startswith(("unknown:", "fn:"))}
+                                                     | set(type_classes(r["type"]))) - {"other"}))
                 present, val = value_for(r["type"].replace("Option<", "").rstrip(">") if cls != "none" else r["type"], cls, base["Meta"].get(r["field"]))
                 if present is None:
                     continue
@@ -146,6 +172,14 @@ def run_c04(tier, replay=None):
                 d.append({"field": r["field"], "class": cls})
             reqs.append({"id": len(meta), "json": json.dumps(model), "want_out": True})
             meta.append(("metakeys", d))
+        # the optional list of the model itself: absent, present and empty, present with an item
+        xitem = {"name": "W1", "bounds": "EXTERIOR", "spacetype": "CONDITIONED", "nextspace": None, "nextspacetype": None, "tilt": "SIDE", "cons": U(11), "u": 0.5, "computed_u": 0.625}
+        for cls, val in (("none", None), ("empty", []), ("other", [xitem])):
+            model = {"meta": copy.deepcopy(base["Meta"])}
+            if val is not None:
+                model["extra"] = val
+            reqs.append({"id": len(meta), "json": json.dumps(model), "want_out": True})
+            meta.append(("modelkeys", [{"field": "extra", "class": cls}]))
         # (2) material variants (flattened untagged enum): both variants, and every field at the values a skip rule or a
         # load default could single out (0, 1, the documented defaults 1000 / 800, another value; optional field absent)
         mats = []
@@ -224,7 +258,7 @@ def run_c04(tier, replay=None):
             mt = meta[ans["id"]]
             if ans.get("skip"):
                 continue            # a project the converter rejects is not a model
-            rt = {"ev": "Roundtrip", "src": mt[0] + (":" + str(mt[1]) if mt[0] in ("keys", "shipped", "random", "converted", "collected") else ""), "loads": ans["loads"],
+            rt = {"ev": "Roundtrip", "src": mt[0] + (":" + str(mt[1]) if mt[0] in ("keys", "shipped", "random", "converted", "collected", "modelkeys") else ""), "loads": ans["loads"],
                   "debug_equal": ans["debug_equal"], "text_equal": ans["text_equal"], "value_equal": ans["value_equal"], "shipped": mt[0] == "shipped",
                   "err": ans.get("err", "")}
             events.append(rt)
@@ -233,6 +267,8 @@ def run_c04(tier, replay=None):
                 items = get(out, mt[2]) or []
                 for inst, d in zip(items, mt[3]):
                     events.append({"ev": "Keys", "struct": mt[1], "fields": [{"field": x["field"], "class": x["class"], "present": x["field"] in inst} for x in d]})
+            if mt[0] == "modelkeys" and isinstance(out, dict):
+                events.append({"ev": "Keys", "struct": "Model", "fields": [{"field": x["field"], "class": x["class"], "present": x["field"] in out} for x in mt[1]]})
             if mt[0] == "metakeys" and isinstance(out, dict):
                 events.append({"ev": "Keys", "struct": "Meta", "fields": [{"field": x["field"], "class": x["class"], "present": x["field"] in out.get("meta", {})} for x in mt[1]]})
             if mt[0] == "container" and isinstance(out, dict):
